@@ -4,6 +4,7 @@ From Coq Require Import Extraction ExtrOcamlBasic.
 From Coq Require Import ZArith.
 From Sbepp Require Import CInt.
 From Sbepp Require Import Bitset.
+From Sbepp Require Import Bytes Msg Layout Wire.
 Extraction Language OCaml.
 Extraction "model.ml"
   Z.add
@@ -42,4 +43,41 @@ Extraction "model.ml"
   Bitset.Legacy.set_bit
   Bitset.spec_get
   Bitset.spec_set
-  Bitset.visit_set.
+  Bitset.visit_set
+  Bytes.enc
+  Bytes.dec
+  Bytes.interp
+  Bytes.to_raw
+  Bytes.slice
+  Bytes.splice
+  Bytes.len
+  Bytes.bytes_ok
+  Bytes.get_primitive_bitcast
+  Bytes.set_primitive_bitcast
+  Bytes.get_primitive_memcpy
+  Bytes.set_primitive_memcpy
+  Msg.enc_message
+  Msg.enc_level
+  Msg.msg_size_bytes
+  Msg.msg_resolve
+  Msg.get_field
+  Msg.set_field
+  Msg.locate_group
+  Msg.group_size_bytes
+  Msg.group_resize
+  Msg.group_fill_header
+  Msg.locate_data
+  Msg.get_data
+  Msg.assign_data
+  Msg.entry_size_bytes
+  Msg.flat_group_size
+  Msg.Legacy.flat_group_size
+  Msg.is_flat
+  Msg.tbytes
+  Layout.compile_message
+  Layout.cursor_fields
+  Layout.type_size
+  Layout.member_offsets
+  Msg.msg_fill_header
+  Wire.over_message
+  Wire.over_size.
